@@ -586,6 +586,19 @@ def _add_private_bases(rng, names, pkg: Pkg) -> None:
                 shared = names.fresh("over_ridden_")
                 base.methods = [Fn(shared, [Param(names.fresh("bp"), "int")], "int", role="inst"), Fn(names.fresh("base_only_"), [], "int", role="inst")]
                 d.methods.append(Fn(shared, [Param(names.fresh("sp"), "int")], "int", role="inst"))
+                if rng.random() < 0.6:
+                    # the subclass hides an inherited method / property behind a plain attribute of the same name
+                    hidden = names.fresh("hidden_by_attr_")
+                    base.methods.append(Fn(hidden, [], "int", role=rng.choice(["inst", "prop"])))
+                    d.cattrs.append(Attr(hidden, "int", "0"))
+                if rng.random() < 0.4:
+                    # an inherited method whose Python name is the converted form of one of the subclass's attributes
+                    attr = names.fresh("retry_limit_")
+                    parts = attr.split("_")
+                    camel = parts[0] + "".join(x[:1].upper() + x[1:] for x in parts[1:] if x)
+                    d.cattrs.append(Attr(attr, "int", "3"))
+                    if camel != attr:
+                        base.methods.append(Fn(camel, [], "int", role="inst"))
                 d.bases.append(base.name)
                 m.decls.insert(m.decls.index(d), base)
 
